@@ -111,7 +111,9 @@ func ScalarPool() []core.Value {
 		1e300, -1e300, 5e-324, -5e-324, float64(1 << 53), float64(1<<53 - 1), math.MaxFloat64, 2.2250738585072014e-308, 6.5} {
 		p = append(p, values.Float(f))
 	}
-	for _, s := range []string{"", "a", "b", "ab", "A", "é", "\xff", "a:b", ",", "0", "1", "true", "aa", "\x00", "\U0001F600"} {
+	// (the last ones look like values of other kinds: timestamps of dates in the pool, numbers, literals)
+	for _, s := range []string{"", "a", "b", "ab", "A", "é", "\xff", "a:b", ",", "0", "1", "true", "aa", "\x00", "\U0001F600",
+		"1970-01-01T00:00:00Z", "1969-12-31T23:59:59Z", "1970-01-01T00:00:01Z", "2023-11-14T20:13:20.000000005-02:00", "1.5", "-1", "null", "[1]"} {
 		p = append(p, values.NewString(s))
 	}
 	p = append(p, Date(0, 0, -1), Date(0, 0, 0), Date(0, 0, 60), Date(0, 1, -1), Date(1, 0, -1),
